@@ -137,6 +137,11 @@ def build_universe(seed, tier):
     # frame — every `max_size_of` of its 20736 leaves is `#[inline(always)]` — so it is used as a marker only)
     st += [nest(Prim('u16'), 32), cftree(7), Phantom(t12), z11, kd5z,
            Adt(byname['KP2'], [Seq('vec', Adt(byname['KW1'], [unit1], [])), Str()], [])]
+    # round 6: big items and big files. `heavy` types get only their empty value from the generic value generator; the `big`
+    # families build the large values explicitly (an item above 1 MiB; two blocks above 64 KiB, the second starting beyond
+    # byte 65536; a file above 2 MiB)
+    hv = Seq('vec', Array(Prim('u64'), 131073)); hv.heavy = True
+    st += [hv, Adt(byname['KP2'], [Seq('vec', Prim('u64')), Seq('vec', Prim('u8'))], []), Seq('vec', Prim('u64'))]
     # round 6: twins (same identifier and same `type_name`, different definitions), used one after the other in one process
     tw = twin_defs('K')
     sd = sd + tw
